@@ -68,6 +68,10 @@ CHECKS = {
    text="The composition branch of assign_tp_lt is symbolically executed through the real table lookups, matchers, uniform split and operand constructors on scenarios with concrete structure (load / store / read-modify-write, typed / untyped / non-matching rows and defaults, multipliers, entry found under the full mnemonic / only without suffix / not at all, missing latency or throughput; both ISAs) and symbolic cycle counts, latencies, throughputs and multipliers: micro-ops = register form ++ load ++ store, pressure = sum of the uniform splits, latency = register form + load latency of the register type, throughput = max(register-form throughput, busiest data port), unknown flags exactly for the neither-form case. The frame obligation (nothing reachable from the model or the matched entry changes) is proved on every path. A bounded unit compares the real add_semantics on a curated vocabulary x shipped models with an independent recomputation from the plain YAML, analyses everything twice and deep-compares the model afterwards.",
    note="Structure of the scenarios bounded (reported as bounded structure, values symbolic); get_instruction through its C07 contract.",
    tech=TECH + " with heap identities / frame obligations; bounded independent recomputation from YAML"),
+ "C15": dict(cat="proof", ref="DESIGN.md section 4 C15",
+   text="The quantifier is a finite set (every entry of every non-empty shipped model, both ISA databases, all load/store tables): the data-structure invariant wf_model (micro-op lists of [cycles >= 0, non-empty collection of known ports], alternatives, non-negative throughput/latency, well-formed tables and defaults) is evaluated on ALL of them, loaded through the current loader, and the real --db-check counters are compared with an independent count over the plain YAML - exhaustive, not sampled. 'Well-formed entries can be costed without crashing' is proved: average_port_pressure raises KeyError exactly for an unknown port and nothing else, for any number of ports and micro-ops; _handle_instruction_found is exception-free; the three missing_* counters of _check_sanity_arch_db receive exactly the entries whose value is None. Pipeline costing of a synthesised instruction per entry is sampled in the quick tier (all alternative-assignment forms + every 25th entry) and exhaustive in the thorough tier.",
+   note="Known finding: snb port 'DIV' (22 forms). Emptied models are skipped as the property says.",
+   tech="exhaustive evaluation of a data-structure invariant over the finite model data + " + TECH),
 }
 NA = {
  "C17": "quantifies over file-system histories, crash points of cache writes and process races; no function contract decides it (needs fault enumeration / a file-system model)",
